@@ -44,9 +44,15 @@ def make_case(r, flavour, single=False, chain=False, missing=False):
          'n_jobs': r.choice([1, 2, 3, 8]), 'per_job': r.choice([1, 2, 3, 10, 30]), 'per_file': r.choice([2, 3, 10000000])}
     cue_names = [c for c in CUES if not (missing and c == 'ä')]
     if flavour in ('r2r', 'r2b'):
-        t['cue_vectors'] = whgen.table(r, cue_names, r.choice([1, 2, 3, 5, 23]), prefix='cd')
+        t['cue_vectors'] = whgen.table(r, cue_names, r.choice([1, 2, 3, 4, 5, 6, 8, 10, 23]), prefix='cd')
     if flavour in ('r2r', 'b2r'):
-        t['outcome_vectors'] = whgen.table(r, OUTS if not missing else OUTS[:-1], r.choice([1, 2, 4, 7, 23]), prefix='od')
+        t['outcome_vectors'] = whgen.table(r, OUTS if not missing else OUTS[:-1], r.choice([1, 2, 3, 4, 6, 7, 9, 10, 23]), prefix='od')
+    # chunk sizes tied to ONE of the matrix dimensions (divisor / equal / off by one), so that a
+    # partition computed from the wrong dimension shows (seeded changes C08_a, C14_a)
+    dims = [len(t[k]['dims']) for k in ('cue_vectors', 'outcome_vectors') if k in t] + [len(OUTS), len(CUES)]
+    if r.random() < 0.6:
+        d = r.choice(dims)
+        t['per_job'] = r.choice([x for x in (d, max(1, d // 2), d + 1, max(1, d - 1), max(1, d // 3)) if x >= 1])
     if flavour == 'r2b' and r.random() < 0.5:
         p = gen.params(r)
         t.update(betas_direct=True, beta1=p['beta1'], beta2=p['beta2'], **{'lambda': p['lambda']})
